@@ -38,6 +38,13 @@ Theorem distinct_atoms_get_distinct_indices : forall m,
 Proof. intros m. split; [apply rank_injective|apply rank_total]. Qed.
 Print Assumptions distinct_atoms_get_distinct_indices.
 
+(* with distinct node keys (a graph has no two nodes with one key) the j-th written atom is referred to as j + 1: the
+   indices in use are exactly 1..N without gaps, each naming one atom *)
+Theorem written_position_is_the_index : forall m, NoDup (map a_key (sorted_nodes m)) ->
+  forall j a, nth_error (sorted_nodes m) j = Some a -> rank m (a_key a) = Some (Z.of_nat j + 1).
+Proof. exact rank_position. Qed.
+Print Assumptions written_position_is_the_index.
+
 (* nothing dropped, duplicated or moved to another section: the (section, interaction)
    pairs written are a permutation of those in memory (impropers renamed dihedrals) *)
 Theorem interactions_multiset_preserved : forall m,
